@@ -202,3 +202,74 @@ theorem intOfText_toString (i : Int) : intOfText (toString i).toList = i := by
     omega
 
 end Wz.Routing
+
+namespace Wz.Routing
+
+/-! ### zero padding -/
+
+theorem zfill_length (w : Nat) (s : Str) (h : s.length ≤ w) : (zfill w s).length = w := by
+  unfold zfill
+  split
+  · rename_i t
+    simp only [List.length_cons, List.length_append, List.length_replicate] at h ⊢
+    omega
+  · simp only [List.length_append, List.length_replicate]
+    omega
+
+theorem digitsVal_zeros (k : Nat) (l : Str) : digitsVal (List.replicate k '0' ++ l) = digitsVal l := by
+  have h0 : (digitVal? '0').getD 0 = 0 := by decide +kernel
+  induction k with
+  | zero => rfl
+  | succ k ih =>
+    simp only [List.replicate_succ, List.cons_append, digitsVal, List.foldl_cons, h0, Nat.zero_mul, Nat.add_zero] at ih ⊢
+    exact ih
+
+theorem intOfText_zfill (w : Nat) (s : Str) : intOfText (zfill w s) = intOfText s := by
+  unfold zfill
+  split
+  · rename_i t
+    simp only [intOfText, digitsVal_zeros]
+  · rename_i hnm
+    cases hk : w - s.length with
+    | zero => simp
+    | succ k =>
+      have : intOfText (List.replicate (k + 1) '0' ++ s) = (digitsVal (List.replicate (k + 1) '0' ++ s) : Int) := by
+        simp [List.replicate_succ, intOfText]
+      rw [this, digitsVal_zeros]
+      cases s with
+      | nil => simp [intOfText, digitsVal]
+      | cons c t =>
+        by_cases hc : c = '-'
+        · subst hc; exact absurd rfl (hnm t)
+        · simp only [intOfText]
+
+theorem percent_not_in_toString (i : Int) : '%' ∉ (toString i).toList := by
+  rw [Int.toString_eq_repr, Int.repr_eq_if]
+  have hd : ∀ n : Nat, '%' ∉ Nat.toDigits 10 n := by
+    intro n h
+    have := Nat.isDigit_of_mem_toDigits (b := 10) (n := n) (c := '%') (by omega) (by omega) h
+    simp [Char.isDigit] at this
+  split
+  · rw [Nat.toList_repr]; exact hd _
+  · simp only [String.toList_append, Nat.toList_repr]
+    intro h
+    rcases List.mem_append.1 h with h | h
+    · simp at h
+    · exact hd _ h
+
+theorem percent_not_in_zfill (w : Nat) (s : Str) (h : '%' ∉ s) : '%' ∉ zfill w s := by
+  unfold zfill
+  split
+  · rename_i t
+    intro hm
+    rcases List.mem_cons.1 hm with hm | hm
+    · cases hm
+    · rcases List.mem_append.1 hm with hm | hm
+      · simp [List.mem_replicate] at hm
+      · exact h (List.mem_cons_of_mem _ hm)
+  · intro hm
+    rcases List.mem_append.1 hm with hm | hm
+    · simp [List.mem_replicate] at hm
+    · exact h hm
+
+end Wz.Routing
